@@ -93,18 +93,20 @@ class Repeat(Expression):
 
     def parse(self, state: ParserState, pairs: list[Pair]) -> bool:
         children: list[Pair] = []
+        state.checkpoint()
 
         while True:
-            state.checkpoint()
             matched = self.expression.parse(state, children)
 
             if not matched:
+                # Also gives back trivia matched after the last iteration.
                 state.restore()
                 break
 
             state.ok()
             pairs.extend(children)
             children.clear()
+            state.checkpoint()
             state.parse_trivia(children)
 
         # Always succeed.
